@@ -318,18 +318,28 @@ def _sibling_value(v):
     return list(v) + [7]
 
 
-def check_now(d, model, tag, vs, obj=None):
+def check_now(d, model, tag, vs, obj=None, first="has_no_result"):
     """``d`` changed state after it was matched (it fired, failed or was resumed): the three matchers classify it as
     it is now, and later callbacks see what the model says (and, where ``obj`` is known, that very object)."""
     from testtools.twistedsupport import has_no_result, succeeded, failed
     import testtools.matchers as tm
     kind = model[0]
-    got = {"has_no_result": has_no_result().match(d) is None}
+    got = {}
     seen, errs = [], []
-    d.addCallbacks(lambda v: (seen.append(v), v)[1], lambda f: (errs.append(f), f)[1])
-    if kind != "failure":
-        got["succeeded"] = succeeded(tm.Always()).match(d) is None      # (on a failure it would consume it)
-    got["failed"] = failed(tm.Always()).match(d) is None
+    # which matcher looks first after the change is the caller's choice (whatever an earlier match left on the
+    # Deferred is met by the first one); the observers go on before any of them (failed() consumes a failure)
+    if first != "has_no_result":
+        d.addCallbacks(lambda v: (seen.append(v), v)[1], lambda f: (errs.append(f), f)[1])
+    for which in sorted(("has_no_result", "succeeded", "failed"), key=lambda w: w != first):
+        if which == "has_no_result":
+            got["has_no_result"] = has_no_result().match(d) is None
+            if first == "has_no_result":
+                d.addCallbacks(lambda v: (seen.append(v), v)[1], lambda f: (errs.append(f), f)[1])
+        elif which == "succeeded":
+            if kind != "failure":
+                got["succeeded"] = succeeded(tm.Always()).match(d) is None      # (on a failure it would consume it)
+        else:
+            got["failed"] = failed(tm.Always()).match(d) is None
     want = {"has_no_result": kind == "none", "succeeded": kind == "value", "failed": kind == "failure"}
     want = {k: want[k] for k in got}
     if got != want:
@@ -482,15 +492,21 @@ def run_case(spec):
                 # matched while unfired, then it fires / fails: the result still belongs to whoever handles it later
                 d = make_deferred(ds, [])
                 mk().match(d)
+                grown = ds
+                if spec.get("then") and spec["then"] != "pause":
+                    # ... and the chain grows before it fires: what is matched afterwards is the end of the chain as it is then
+                    add_cb(d, spec["then"], [])
+                    grown = dict(ds, callbacks=list(ds["callbacks"]) + [spec["then"]])
                 if spec["after"] == "errback":
                     fired = ML.EXC_CLASSES["ValueError"]("late failure")
-                    after = dict(ds, state="failure", exc="ValueError")
+                    after = dict(grown, state="failure", exc="ValueError")
                     d.errback(fired)
                 else:
                     fired = live_val(ds["value"])
-                    after = dict(ds, state="value")
+                    after = dict(grown, state="value")
                     d.callback(fired)
-                check_now(d, model_chain(after), name + "-unfired", vs, fired if result_is_fired_object(after) else None)
+                check_now(d, model_chain(after), name + ("-unfired" if grown is ds else "-unfired-then-" + spec["then"]), vs,
+                          fired if result_is_fired_object(after) else None, first=name)
                 del d, fired
             elif kind == "none" and ds["state"].startswith("paused"):
                 # matched while paused, then resumed
